@@ -5,7 +5,7 @@ import time
 from vf import Inconclusive, parallel, require_clean, validate_traces, vfj_lines, b2s
 
 CLAIM = {
-    "text": "ExprScalar.tla transcribes the documented semantics of 60 scalar expression helpers (integer/float arithmetic, floor/ceil/round, comparison and logic, string helpers, bucket/bucketrange/clamp/expbucket, csv with an RFC 4180 decoder (Csv.tla), hi/hf/percent/bytesize/bytesizesi/downscale, lookup/haskey, path helpers, format) with explicit domains; TLC proves the property's laws on that model over ranges (bucket is the multiple b of s with b<=v<b+s, clamp returns v iff min<=v<=max, Decode(csv(args))=args for every CSV special character, hi only inserts separators at every third digit, truncating divi/modi, order laws of lt..gte, rounding within half a unit, ...); TLC enumerates exhaustive small argument ranges per helper and arity with the expected result, the real compiler evaluates each call with every argument both as a template constant and as a match group (optimised and unoptimised), and every recorded evaluation, plus seeded random calls with values up to +-10^9, is validated by TLC against the specification.",
+    "text": "ExprScalar.tla transcribes the documented semantics of 60 scalar expression helpers (integer/float arithmetic, floor/ceil/round, comparison and logic, string helpers, bucket/bucketrange/clamp/expbucket, csv with an RFC 4180 decoder (Csv.tla), hi/hf/percent/bytesize/bytesizesi/downscale, lookup/haskey, path helpers, format) with explicit domains; TLC proves the property's laws on that model over ranges (bucket is the multiple b of s with b<=v<b+s, clamp returns v iff min<=v<=max, Decode(csv(args))=args for every CSV special character, hi only inserts separators at every third digit, truncating divi/modi, order laws of lt..gte, rounding within half a unit, ...); TLC enumerates exhaustive small argument ranges per helper and arity with the expected result, the real compiler evaluates each call with every argument both as a template constant and as a match group (optimised and unoptimised), on a fresh compiled expression and again as evaluation histories (one compiled expression evaluated over sequences of contexts that differ in one dynamic argument at a time, with revisits and error values, and from 2-4 goroutines), so a compiled expression is checked to be a function of its current context; every distinct recorded observation, plus seeded random histories with values up to +-10^9, is validated by TLC against the specification.",
     "note": "Bounded: TLC integers are 32 bit, so values beyond 9 digits, int64/float64 boundaries, binary rounding ties, exponent/hex/inf/nan spellings, non-ASCII case mapping and log10/log2/ln are outside the specified domain (only 'returns'). Whitespace-only arguments of and/or/not are outside the domain (the docs contradict themselves). Trusted: TLC, the Go runtime, the template encoding of constants (checked with a transparent function).",
     "technique": "TLA+ functional specification model-checked with TLC (laws over ranges) + model-generated vectors replayed on the real code + TLC validation of recorded evaluations",
 }
@@ -45,6 +45,7 @@ def _check(run):
     res_path = os.path.join(run.scratch, "c11-replay.json")
     b1_trace = os.path.join(run.scratch, "c11-b1-trace.ndjson")
     b2_trace = os.path.join(run.scratch, "c11-b2-trace.ndjson")
+    b2_stats = os.path.join(run.scratch, "c11-b2-stats.json")
 
     import threading
     b3_done = threading.Event()
@@ -77,7 +78,7 @@ def _check(run):
         if n < 15000:
             raise Inconclusive("generator produced only %d vectors" % n)
         run.drv(["replay", "-in", vec_path, "-out", res_path, "-trace", b1_trace])
-        run.drv(["trace", "-out", b2_trace, "-n", 24000 if quick else 1000000])
+        run.drv(["trace", "-out", b2_trace, "-n", 30000 if quick else 1000000, "-stats", b2_stats])
         b2_lines = open(b2_trace).read().splitlines()
         lines = open(b1_trace).read().splitlines() + b2_lines
         # canary: corrupted copies of real records; TLC must reject most of them (guards against a vacuous validation)
@@ -112,6 +113,11 @@ def _check(run):
     run.cov["b1_vectors"] = res["vectors"]
     run.cov["b1_evaluations"] = res["runs"]
     run.cov["b1_per_helper"] = res["per_func"]
+    run.cov["b1_history_expressions"] = res["history_expressions"]
+    run.cov["b1_history_steps"] = res["history_steps"]
+    run.cov["b1_goroutine_observations"] = res["goroutine_observations"]
+    run.cov["b1_records_for_tlc"] = "%d distinct observations (%d further evaluations gave an identical record)" % (
+        res["records_written"], res["records_identical"])
     run.cov["traces_validated_against_impl"] += res["runs"]
     run.cov["evaluations"] += res["runs"]
     run.cov["distinct_nontrivial"] += res["distinct_nontrivial"]
@@ -119,12 +125,21 @@ def _check(run):
         run.sample({"b1": s})
     for m in res["mismatches"] or []:
         run.violation("%s:%s" % (m["f"], m["class"]),
-                      "template %s with context %s (optimise=%s) evaluates to %r%s%s; the specification expects %s %r" % (
-                          m["template"], m["args"], m["opt"], m["got"],
+                      "template %s%s with context %s (optimise=%s) evaluates to %r%s%s; the specification expects %s %r" % (
+                          m["template"],
+                          (" (one compiled expression, history %s step %s, previous context %s)" % (m["hist"], m.get("step"), m.get("prev"))
+                           if "hist" in m and "goroutines" not in m else
+                           " (one compiled expression evaluated from %s goroutines)" % m["goroutines"] if "goroutines" in m else ""),
+                          m["args"], m["opt"], m["got"],
                           " (compile error)" if m["cerr"] else "", " PANIC " + m["panic"] if m["panic"] else "",
                           m["expect"]["k"], m["expect_text"] or [_text(a) for a in m["expect"]["alts"] or []]), m)
 
-    nb2 = sum(1 for _ in open(b2_trace))
+    st = json.load(open(b2_stats))
+    nb2 = st["evaluations"] + st["goroutine_observations"]
+    run.cov["b2_history_expressions"] = st["expressions"]
+    run.cov["b2_goroutine_expressions"] = st["goroutine_expressions"]
+    run.cov["b2_records_for_tlc"] = "%d distinct observations (%d further evaluations gave an identical record)" % (
+        st["records_written"], st["records_identical"])
     consumed = nontrivial = canary = canary_rejected = 0
     for (i, p, part), (r, _) in zip(chunks, results):
         canary += sum(1 for ln in part if '"canary":true' in ln)
@@ -139,8 +154,11 @@ def _check(run):
                 continue
             args = [bytes(a).decode("latin1") for a in rec["args"]]
             run.violation("%s:%s" % (bad["f"], bad["class"]),
-                          "recorded evaluation {%s %s} (positions %s, optimise=%s) = %s%s%s is rejected by ExprScalar.tla (%s)" % (
-                              rec["f"], " ".join(repr(a) for a in args), "".join(rec["pos"]), rec.get("opt"),
+                          "recorded evaluation {%s %s}%s (positions %s, optimise=%s) = %s%s%s is rejected by ExprScalar.tla (%s)" % (
+                              rec["f"], " ".join(repr(a) for a in args),
+                              (" [%s goroutines on one compiled expression]" % rec["goroutines"] if "goroutines" in rec else
+                               " [step %s of history %s on one compiled expression]" % (rec.get("step"), rec["hist"]) if "hist" in rec else ""),
+                              "".join(rec["pos"]), rec.get("opt"),
                               _text(rec["got"]), " (compile error)" if rec["cerr"] else "",
                               " PANIC" if rec["panic"] else "", bad["class"]), rec)
     if canary_rejected * 5 < canary * 2:
@@ -148,7 +166,7 @@ def _check(run):
     run.cov["b2_corrupted_records_rejected"] = "%d of %d" % (canary_rejected, canary)
     consumed -= canary
     run.cov["b2_records"] = consumed
-    run.cov["b2_random_calls"] = nb2
+    run.cov["b2_random_evaluations"] = nb2
     run.cov["b2_records_inside_domain"] = nontrivial
     run.cov["traces_validated_against_impl"] += nb2
     run.cov["evaluations"] += nb2
@@ -158,4 +176,4 @@ def _check(run):
         raise Inconclusive("only %d of %d recorded evaluations are inside the specified domain" % (nontrivial, consumed))
     run.cov["rule"] = ("B3: every case of every law in ExprScalar_MC; B1: every generated call x every constant/dynamic position pattern "
                        "(x unoptimised compiler on a third), non-trivial = the specification demands something (expectation kind other than 'any'); "
-                       "B2: one record per evaluation, %d random calls" % nb2)
+                       "B2: random evaluation histories (>= 6 contexts per compiled expression, one dynamic argument changed per step, revisits, error values, 2-4 goroutines on a sample), %d evaluations; identical observations are validated once" % nb2)
